@@ -122,3 +122,27 @@ def model_replay(contracts_module, o):
     if o.get("replayed") is not None:
         return o["replayed"]
     return replay_block.replay_any(contracts_module, o)
+
+
+def set_default_doc_replay():
+    """The contract of set_default_doc on the real function: a default is announced exactly when the description does not announce one yet"""
+    import copy
+
+    from cdd.shared.defaults_utils import set_default_doc
+
+    for doc in ("Engine that replaces the default one", "the default backend", "Default engine", "the x", "The x of it.", "DEFAULT"):
+        for dflt, typ in (("numpy", "str"), (5, "int"), (-2.5, "float"), (False, "bool")):
+            p = {"doc": doc, "typ": typ, "default": dflt}
+            try:
+                _n, out = set_default_doc(("x", copy.deepcopy(p)), emit_default_doc=True)
+            except Exception:
+                continue
+            if not (out["doc"].startswith(doc) and " Defaults to " in out["doc"]):
+                return {"call": "cdd.shared.defaults_utils.set_default_doc(('x', %r), emit_default_doc=True)" % (p,),
+                        "what": "the description comes back as %r: no 'Defaults to' clause was appended although it does not announce a default (the word 'Defaults' / 'defaults' is not in it), so the default cannot be read back from the docstring" % out["doc"]}
+    for doc in ("The x. Defaults to 3", "x, defaults to 3"):
+        p = {"doc": doc, "typ": "int", "default": 3}
+        _n, out = set_default_doc(("x", copy.deepcopy(p)), emit_default_doc=True)
+        if out["doc"] != doc:
+            return {"call": "cdd.shared.defaults_utils.set_default_doc(('x', %r), emit_default_doc=True)" % (p,), "what": "a description that already announces its default was changed to %r" % out["doc"]}
+    return None
